@@ -248,6 +248,49 @@ func run(c *rig.Ctx) {
 			}
 		}
 		c.Count("batched_sequence_cases", 1)
+		// long runs of key events with no JOYP access at all (a front end may deliver dozens
+		// between two polls of the guest), and the guest going through STOP mode in between
+		if i%16 == 0 {
+			m3 := rig.MustNew(rom, rig.Opts{})
+			sel := uint8(r.Intn(4)) << 4
+			m3.Mem.Write(0xff00, sel)
+			s3 := jstate{sel: sel}
+			n := 20 + r.Intn(60)
+			for k := 0; k < n; k++ {
+				e := events[r.Intn(16)]
+				applyReal(m3, e)
+				s3 = s3.apply(e)
+				if k == n/2 && i%32 == 0 {
+					// STOP, woken by the next key event: the select bits are the guest's
+					regs := m3.CPU.XGetRegs()
+					m3.Mem.Write(0xc000, 0x10)
+					m3.Mem.Write(0xc001, 0x00)
+					m3.Mem.Write(0xc002, 0x18)
+					m3.Mem.Write(0xc003, 0xfe)
+					regs.PC = 0xc000
+					m3.CPU.XResetToBoundary()
+					m3.CPU.XSetRegs(regs)
+					for t := 0; t < 6; t++ {
+						m3.Step()
+					}
+					c.Count("stop_mode_passages", 1)
+				}
+			}
+			for t := 0; t < 6; t++ {
+				m3.Step()
+			}
+			for _, q := range []uint8{sel, 0x00, 0x10, 0x20, 0x30} {
+				if q != sel {
+					m3.Mem.Write(0xff00, q)
+					s3.sel = q
+				}
+				if got := m3.Mem.Read(0xff00); got != s3.read() {
+					c.Violate("long-batch-"+classOf(s3), fmt.Sprintf("after %d key events with no JOYP access (select %02X written before them), select now %02X: JOYP=%02X want %02X", n, sel, q, got, s3.read()), nil)
+					return
+				}
+			}
+			c.Count("long_batches", 1)
+		}
 		c.Exact(1)
 		c.Count("sequence_cases", 1)
 	})
